@@ -43,7 +43,7 @@ def corpus_cases():
 
 def run(ctx, prop_files, flavours, n_quick, n_thorough, keep=lambda l: True, variants_quick=('ref_multi', 'val_single'),
         variants_thorough=('ref_multi', 'val_single'), what='EventQueue', keep_by_variant=None):
-    proof = vlib.coq_prove(ctx, prop_files)
+    proof = vlib.coq_prove(ctx, prop_files, leaves=['queue'])
     names = variants_thorough if ctx.tier == 'thorough' else variants_quick
     bins = build_variants(ctx, names)
     n = ctx.budget(n_quick, n_thorough)
